@@ -76,6 +76,17 @@ def make_client(chunks, picks, form):
     tape = ", ".join(str(markers.TAPE_BASE + i) for i in range(6))
     if form == "attr":
         head = "import %s as L\n\n" % LIBNAME
+    elif form == "from_as":
+        # every name imported under an alias of its own
+        names = sorted(set(re.findall(r"\bL\.([A-Za-z_]\w*)", body)))
+        head = "from %s import %s\n\n" % (LIBNAME, ", ".join("%s as vk_alias_%d" % (n, i) for i, n in enumerate(names)))
+        for i, n in enumerate(names):
+            body = re.sub(r"\bL\.%s\b" % re.escape(n), "vk_alias_%d" % i, body)
+    elif form == "reexport":
+        # the client only re-exports the names (imports them, lists them in __all__) and uses them through itself
+        names = sorted(set(re.findall(r"\bL\.([A-Za-z_]\w*)", body)))
+        head = "from %s import %s\n\n__all__ = %r\n\n" % (LIBNAME, ", ".join(names), names)
+        body = "print(sorted(__all__))"
     else:
         names = sorted(set(re.findall(r"\bL\.([A-Za-z_]\w*)", body)))
         head = "from %s import %s\n\n" % (LIBNAME, ", ".join(names))
@@ -265,7 +276,7 @@ def _jobs(tier, seed):
     jobs = []
     for chunks in combos + triples:
         for picks in itertools.product(*[range(len(USES[c])) for c in chunks]):
-            for form in ("attr", "from"):
+            for form in ("attr", "from") + (("from_as", "reexport") if len(chunks) == 1 else ()):
                 jobs.append((list(chunks), list(picks), form))
     if tier == "quick":
         singles = [j for j in jobs if len(j[0]) == 1]
